@@ -5,6 +5,8 @@ import (
 	"path/filepath"
 	"sort"
 	"strings"
+
+	"verifsim/ref"
 )
 
 func init() {
@@ -132,6 +134,37 @@ func par2Cycle(r *Run, o cycleOpts) {
 				r.Logf("backup copy %s of %s", filepath.Base(dst), filepath.Base(src))
 				r.Probe("duplicated-recovery-file")
 			}
+		}
+	}
+	if t.Bool(1, 10, "foreign-prefix") {
+		// a recovery file that also carries another recovery set's packets
+		// in front of ours (two volumes concatenated): conformant, and all
+		// of our blocks in it are intact
+		rec := w.RecoveryPaths()
+		var present []string
+		for _, p := range rec {
+			if _, ok := w.Disk.Get(p); ok {
+				present = append(present, p)
+			}
+		}
+		if len(present) > 0 {
+			p := present[t.Draw(len(present), "which")]
+			b, _ := w.Disk.Get(p)
+			other := ref.BuildSet([]ref.Protected{{Name: "other.bin", Data: expandContent(ckRandom, t.Draw64(0, "oseed"), 2*w.S+3, w.S)}}, w.S, []int{0, 1}, "other")
+			var nb []byte
+			nb = append(nb, other.Creator...)
+			for _, pk := range other.CriticalPackets() {
+				nb = append(nb, pk...)
+			}
+			nb = append(nb, other.Recovery[0]...)
+			nb = append(nb, b...)
+			if t.Bool(1, 2, "foreign-suffix-too") {
+				nb = append(nb, other.Recovery[1]...)
+			}
+			w.Disk.Put(p, nb)
+			w.Created[p] = nb
+			r.Logf("foreign set's packets concatenated in front of %s", filepath.Base(p))
+			r.Probe("foreign-packets-first-in-volume")
 		}
 	}
 	hostile := ""
